@@ -212,5 +212,5 @@ SANITIZE = True        # thorough tier: reduced pass against an ASan build of th
 SANITIZE_SCALE = 0.05
 
 SUBCHECKS = [
-    Subcheck("roundtrip", cases, check_roundtrip, classify, quick=3000, thorough=150000),
+    Subcheck("roundtrip", cases, check_roundtrip, classify, quick=9000, thorough=150000),
 ]
